@@ -395,18 +395,18 @@ PROPS["C17"] = {
     "runs": [
         {"pkg": "rhp/v4", "harness": ["harness/c17/c17.go"], "run": "^VH_C17_", "params": {"quick": {"mul_uf": 1, "tax_uf": 1, "int_mode": 1, "cur_lift": 1}, "thorough": {"mul_uf": 1, "tax_uf": 1, "int_mode": 1, "cur_lift": 1}},
          "flags": {"quick": ["-timeout", "2000"], "thorough": ["-timeout", "20000"]},
-         "must_reach": {"VH_C17_PayWithContract": ["paid", "insufficient"], "VH_C17_Renew": ["end"]}, "tv_harnesses": ["VH_C17_PayWithContract"]},
+         "must_reach": {"VH_C17_PayWithContract": ["paid", "insufficient"], "VH_C17_Renew": ["end"], "VH_C17_Form": ["end"], "VH_C17_Refresh": ["end"]}, "tv_harnesses": ["VH_C17_PayWithContract", "VH_C17_Form", "VH_C17_Refresh"]},
     ],
     "tv_runs": {"quick": 2, "thorough": 6},
-    "bounds": {"quick": "one constructor step from an arbitrary consensus-valid v2 contract (values < 2^104): PayWithContract (all Revise* constructors go through it) with arbitrary usage; RenewContract + RenewalCost with arbitrary prices and parameters whose price*size*duration products do not overflow", "thorough": "same"},
-    "outside": ["RefreshContract* and RefreshCost, NewContract/ContractCost, v1-era (rhp/v2, rhp/v3) payout/tax equations: not built in this session", "products price*size*duration are uninterpreted (the identities checked do not depend on their value); paths where they overflow 2^128 panic in Currency.Mul64 and are outside the claim",
+    "bounds": {"quick": "one constructor step from an arbitrary consensus-valid v2 contract (values < 2^104): PayWithContract (all Revise* constructors go through it) with arbitrary usage; RenewContract + RenewalCost with arbitrary prices and parameters whose price*size*duration products do not overflow; NewContract + ContractCost (terms carried over, value relations, costs fund contract + tax + fee exactly, host pays exactly its collateral); RefreshContractPartialRollover / FullRollover + RefreshCost (old value split exactly, rollover <= new contract cost, value relations, file/window/keys unchanged, collateral at risk unchanged, costs + rollovers fund the refreshed contract + tax + fee exactly, no panic)", "thorough": "same"},
+    "outside": ["v1-era (rhp/v2, rhp/v3) payout/tax equations", "refresh starts from a contract with missed host value <= total collateral (the state RHP4's own constructors keep a contract in; RiskedCollateral() panics otherwise)", "products price*size*duration are uninterpreted (the identities checked do not depend on their value); paths where they overflow 2^128 panic in Currency.Mul64 and are outside the claim",
                 "request Validate methods are not executed; the height relations they guarantee are assumed"],
     "stubs": ["math/bits.Mul64 of two symbolic operands: uninterpreted product", "V2FileContractTax: uninterpreted tax(value) <= value", "Currency Add/Sub/Cmp lifted to 128 bits; integer rendering"],
     "assumptions": COMMON_ASSUME,
 }
 MANIFEST_TEXT["C17"] = {
     "text": "Bounded model checking, one inductive step over call sequences: from an arbitrary consensus-valid contract the real PayWithContract / RenewContract / RenewalCost are executed symbolically and the solver (linear integer rendering of the 128-bit currency arithmetic) proves the conservation identities, the exact charging of usage and risked collateral, clean failure iff funds are insufficient, rollover bounds, and that the results satisfy the consensus value relations.",
-    "note": "Partial claim (refresh, formation and v1-era constructors not covered). Trusted: z3, engine, uninterpreted products/tax.",
+    "note": "Partial claim (v1-era constructors not covered). Trusted: z3, engine, uninterpreted products/tax.",
 }
 
 RHP4_SKIP = "(FormContract|RefreshContract|RenewContract)"
